@@ -63,6 +63,7 @@ func SharedPublication() {
 		kit.Failf("setup", "NewSocket: %v", err)
 	}
 	ep := vt.Get("shared")
+	ep.Wrap = kit.ChooseFree(2) == 1 // the transport hands over frames in buffers of its own (as ws does) or in pooled messages
 	if err := s.Listen("vt://shared"); err != nil {
 		kit.Failf("setup", "Listen: %s", kit.ErrName(err))
 	}
